@@ -381,9 +381,10 @@ class ModAnalysis:
         return s
 
     # ------------------------------------------------------------------------------------
-    def is_fresh_expr(self, fn, e, _seen=None):
+    def is_fresh_expr(self, fn, e, _seen=None, at=None):
         """Fresh(e): result of an allocator / of a function returning fresh memory, NULL, or a
-        local all of whose assignments are fresh.  Returns (bool, reason)."""
+        local all of whose assignments are fresh.  Returns (bool, reason).  With `at` (the statement that uses e) only the
+        definitions of a local that REACH that statement count (ret = lookup(); if (ret) return ret; ret = strdup(name); use(ret))."""
         _seen = _seen or set()
         if e.is_null_const():
             return True, "NULL"
@@ -433,6 +434,16 @@ class ModAnalysis:
                                 a = args[j].strip()
                                 if a.k == "UnaryOperator" and a.j.get("op") == "&" and render(a.children[0]) == name:
                                     defs.append(None)
+            if at is not None:
+                try:
+                    from .dataflow import ReachingDefs
+                    rd = getattr(fn, "_rd_fresh", None) or ReachingDefs(fn)
+                    fn._rd_fresh = rd
+                    reach = rd.reaching(name, at)
+                    if reach and all(d.kind in ("init", "assign") and d.rhs is not None for d in reach):
+                        defs = [d.rhs for d in reach]
+                except Exception:
+                    pass
             if not defs:
                 return False, "local %s is never assigned" % name
             for d in defs:
